@@ -28,6 +28,13 @@ CLAIMED = {
              "call/return stamped from one global counter, and the merged histories are checked for linearizability by TLC.",
         design="7 (C18), 4, 5",
         technique="TLA+ L2 spec (SpinStack, rings) + LinQueue(lifo/fifo) monitor checked by TLC; trace validation of deterministic-scheduler and free-running executions of the real containers"),
+    "C15": dict(
+        text="The L1 oracles contain no sequence counters, so a history accepted from every origin is origin independence. TLC checks RingAtomic / RingFullSync / the pool free list from *every* origin of the "
+             "counter modulus W (wrap inside every run) with and without overflow checks; the real rings, pool allocators and reservation API run the same single-thread histories (send, receive, reserve, "
+             "send-reserved, cancel, length, teardown with leftovers) from origin 0 and from each origin in a window around 2^32 (verif::set_sequence_origin), in a debug (overflow checks) and a nochecks build; "
+             "every run is validated by TLC against the trace specs, results are compared operation by operation with origin 0, panics are an L1 verdict; plus concurrent schedules started right below the wrap.",
+        design="7 (C15), 4, 5",
+        technique="TLA+ L2 specs from every counter origin checked by TLC; trace validation + origin-0 differential of real executions started around the 32-bit wrap (debug and nochecks builds)"),
 }
 
 NOT_YET = "check not built yet (work in progress; see DESIGN.md section 12)"
